@@ -71,7 +71,7 @@ func chainShape(c *Ctx, rule, short, fnName, field, callPat, lockField string) {
 	c.Ob(rule, name+"/no-lock-while-calling", call.Pos(), !li.HoldsAny(call, recvOf(fn)+"."+lockField), "middleware invoked with "+lockField+" held; held="+li.Held(call).String())
 }
 
-func recvOf(fn *ssa.Function) string { return fn.Params[0].Name() }
+func recvOf(fn *ssa.Function) string { return vname(fn.Params[0]) }
 
 func runC12(c *Ctx) {
 	p := c.P
